@@ -154,7 +154,9 @@ def needed_roots(desc: dict, output: str, supplied: set) -> set:
 
 def gen_dag(rng: random.Random, n_funcs: int = 3, allow_multi=True, allow_defaults=True, allow_bound=True,
             allow_renames=True, allow_nullary=True) -> dict:
-    names = iter("abcdefgh")
+    pool = list("abcdefghmnpq")
+    rng.shuffle(pool)  # output names in no particular (e.g. topological) order
+    names = iter(pool)
     avail: list[str] = []
     funcs = []
     defaults_seen: dict[str, str] = {}
